@@ -1,4 +1,5 @@
 import EupsModel.Lemmas.DepsTotal
+import EupsModel.Lemmas.DepsPinned
 /-! C13 — dependency listings are complete and ordered; `uses` is their inverse.
 Property theorems only.  Models: `Model/Topo.lean`, `Model/Deps.lean`; lemmas: `Lemmas/Topo.lean`,
 `Lemmas/TopoSpec.lean`, `Lemmas/TopoTotal.lean`, `Lemmas/Deps.lean`, `Lemmas/DepsFuel.lean`, `Lemmas/DepsTopo.lean`,
@@ -161,28 +162,80 @@ theorem C13_cycle_reported (db : Db) (hns : NoUnsetup db) (top : Prod) (hsv : Si
     getDependentProducts db db.fuel top true true = .cycle ∧
       ∃ out, getDependentProducts db db.fuel top true false = .ok out := by
   constructor
-  · rcases getDependentProducts_total db hns top true true with ⟨out, h⟩ | ⟨_, h⟩
+  · rcases getDependentProducts_total db top true true with ⟨out, h⟩ | ⟨_, h⟩
     · exact absurd (C13_cycle_reported_partial db hns _ top hsv out h a b ha hb hab hba) hne
     · exact h
-  · rcases getDependentProducts_total db hns top true false with h | ⟨h, _⟩
+  · rcases getDependentProducts_total db top true false with h | ⟨h, _⟩
     · exact h
     · exact absurd h (by simp)
 
+/-! ## several versions in one closure (D31): what does hold -/
+
+/-- **`--checkCycles`, characterised exactly** — any number of versions, no `SingleVersion`: with the driver's
+fuel the outcome is the cycle report if and only if two different products reach one another in the **pinned**
+graph: the tables opened when every name is resolved to the version of its last entry in the plain listing
+(`pins db top`; that is the graph the code hands to `topologicalSort`).  Under `SingleVersion` the pinned graph is
+the closure itself (`C13_cycle_reported`); in general it is neither a sub- nor a supergraph of it
+(`C13_cycle_two_versions_witness`). -/
+theorem C13_checkCycles_exact (db : Db) (hns : NoUnsetup db) (top : Prod) (topological : Bool) :
+    getDependentProducts db db.fuel top topological true = .cycle ↔
+      ∃ a b, a ≠ b ∧ DepPathR db (pins db top) top a b ∧ DepPathR db (pins db top) top b a :=
+  checkCycles_exact db hns top topological
+
+/-- **Topological order with several versions** (partial: hypothesis `PinnedSingle` — no two different nodes of the
+pinned graph bear one name, the root included; strictly weaker than `SingleVersion`, and it cannot be dropped:
+`C13_pinned_single_needed_witness`).  Every listed entry whose *name* has a node in the pinned graph carries the
+depth of that node, and these depths respect every edge of the pinned graph between different components: if `pu`
+is an opened pinned product, a line of its table denotes `pv` (as pinned), and `pu` is not reachable back from
+`pv`, then every entry named like `pv` is listed strictly deeper than every entry named like `pu` — whichever of
+their versions the entries are. -/
+theorem C13_topological_pinned_order (db : Db) (hns : NoUnsetup db) (top : Prod) (cc : Bool) (out : List Entry)
+    (h : getDependentProducts db db.fuel top true cc = .ok out)
+    (hps : PinnedSingle db (pins db top) top)
+    (eu ev : Entry) (hu : eu ∈ out) (hv : ev ∈ out) (pu pv : Prod)
+    (hnu : pu.name = eu.prod.name) (hnv : pv.name = ev.prod.name)
+    (hopen : XReach db (pins db top) top pu) (hedge : Edge db (pins db top) pu pv)
+    (hcomp : ¬ DepPathR db (pins db top) top pv pu) :
+    ∃ du dv, eu.depth = some du ∧ ev.depth = some dv ∧ du < dv := by
+  obtain ⟨out1, st1, o2, st2, ls, lvl, h1, C, _, hlt, hord, _, hdepth⟩ := topo_levels_pinned hns h
+  have hp : pins db top = pinsOf out1 := by simp [pins, h1]
+  rw [hp] at hps hopen hedge hcomp
+  have hku : pu ∈ keys (normalise (graphOf st2)) := (mem_keys_graph _ _).mpr (Or.inl ((nodes_iff C pu).mpr hopen))
+  have hlu : pu = top ∨ Listed db (pinsOf out1) top pu := (keys_graph_iff C pu).mp hku
+  have hlv : Listed db (pinsOf out1) top pv := ⟨pu, hopen, hedge⟩
+  have hkv : pv ∈ keys (normalise (graphOf st2)) := (keys_graph_iff C pv).mpr (Or.inr hlv)
+  have hne : pv ≠ pu := by
+    intro he; subst he; exact hcomp (DepPathR.refl _)
+  have hsucc : pv ∈ succs (normalise (graphOf st2)) pu := (succs_graph_iff C pu pv).mpr ⟨hne, hopen, hedge⟩
+  have hlvl := hord pu hku pv hsucc (fun hpath => hcomp (path_to_depPathR C hpath))
+  have h1u := hlt pu hku
+  have h1v := hlt pv hkv
+  refine ⟨ls.length - lvl pu, ls.length - lvl pv, hdepth hps eu hu pu hlu hnu, hdepth hps ev hv pv (Or.inr hlv) hnv, ?_⟩
+  omega
+
 /-! ## totality -/
 
-/-- **The listing never raises** (repaired tree; D18 was the `TypeError`): on every database without unsetup
-lines, for every root and every mode, the outcome is a listing — or, only when `checkCycles` is set, the cycle
-report.  No other error, no non-termination, also with two versions of a product and unresolved names. -/
-theorem C13_topological_total (db : Db) (hns : NoUnsetup db) (top : Prod) (topological cc : Bool) :
+/-- **The listing never raises** (repaired tree; D18 was the `TypeError`, D32 the `RecursionError`): on **every**
+database — unsetup lines inside dependency cycles and missing table files included — for every root and every mode,
+the outcome is a listing — or, only when `checkCycles` is set, the cycle report.  No other error, no
+non-termination, also with two versions of a product and unresolved names. -/
+theorem C13_topological_total (db : Db) (top : Prod) (topological cc : Bool) :
     (∃ out, getDependentProducts db db.fuel top topological cc = .ok out) ∨
       (cc = true ∧ getDependentProducts db db.fuel top topological cc = .cycle) :=
-  getDependentProducts_total db hns top topological cc
+  getDependentProducts_total db top topological cc
 
-/-- **`uses` never raises** (repaired tree; D2 was the `TypeError`): the index is built for every database
-without unsetup lines, and `users` is a total function of it — "the query answers without error even when a
+/-- **`Table.dependencies` returns on every database** (tree with the D32 repair): recursive or not, with or
+without the required versions of a second pass, whatever the tables say, the walk completes within the driver's
+fuel — the measure is (products without an unsetup listing in progress, products not yet opened). -/
+theorem C13_dependencies_total (db : Db) (req : Required) (top : Prod) (recursive : Bool) (depth : Nat) :
+    ∃ out st, depsOf db db.fuel req top recursive depth St.empty = some (out, st) :=
+  depsOf_total db req top recursive depth
+
+/-- **`uses` never raises** (repaired tree; D2 was the `TypeError`, D32 the `RecursionError`): the index is built
+for every database, and `users` is a total function of it — "the query answers without error even when a
 product depends on two versions of another". -/
-theorem C13_uses_total (db : Db) (hns : NoUnsetup db) : ∃ sb, usesInfo db db.fuel = .ok sb :=
-  usesInfo_total db hns
+theorem C13_uses_total (db : Db) : ∃ sb, usesInfo db db.fuel = .ok sb :=
+  usesInfo_total db
 
 /-! ## `uses` is the inverse of the listings -/
 
@@ -211,7 +264,7 @@ theorem C13_uses_is_reach (db : Db) (hns : NoUnsetup db) (sb : SetupBy) (h : use
     exact ⟨this.1, this.2, h3, h4⟩
   · rintro ⟨hq, ⟨d, hd, h1, h2⟩, v, hv, hne, h3, h4⟩
     refine ⟨hq, d, hd, h1, h2, ?_⟩
-    rcases getDependentProducts_total db hns ⟨Y, some w, true⟩ true false with ⟨l, hl⟩ | ⟨hcc, _⟩
+    rcases getDependentProducts_total db ⟨Y, some w, true⟩ true false with ⟨l, hl⟩ | ⟨hcc, _⟩
     · refine ⟨l, hl, ?_⟩
       have := ((C13_topological_listing db hns _ _ _ l hl).2 v).mpr ⟨hv, hne⟩
       obtain ⟨e, he, rfl⟩ := List.mem_map.mp this
@@ -279,6 +332,100 @@ theorem C13_topological_two_versions_witness :
   ⟨d31, rTop, _, ⟨⟨s "b", some (s "2"), true⟩, false, some 2⟩, ⟨⟨s "c", some (s "1"), true⟩, false, some 2⟩,
     by decide, rfl, by decide, by decide, by decide, by decide, by decide, rfl⟩
 
+section D31Examples
+private def t (x : String) : Str := Str.ofString x
+private def ln (n : String) (v : Option String := none) : Dep := ⟨false, false, t n, v.map t, false, false⟩
+
+/-- corpus/C13/d31_cycle_hidden.json: `r → a 2, a`; `a 2 ↔ b` is a cycle of the closure; `a 1` (current, listed
+last) has no dependencies.  The second pass resolves every `a` to `a 1`: the pinned graph is `r → a 1`. -/
+def d31hidden : Db :=
+  { decls := [⟨t "r", t "1", [ln "a" (some "2"), ln "a"], false⟩, ⟨t "a", t "1", [], false⟩,
+              ⟨t "a", t "2", [ln "b"], false⟩, ⟨t "b", t "1", [ln "a" (some "2")], false⟩]
+    current := [(t "r", t "1"), (t "a", t "1"), (t "b", t "1")] }
+
+/-- corpus/C13/d31_cycle_invented.json: `r → b, a 2`; `b → a 1` (explicit); `a 2 → b`; the closure is acyclic.  The
+second pass resolves `b`'s line to `a 2` (listed last): the pinned graph has the cycle `b ↔ a 2`. -/
+def d31invented : Db :=
+  { decls := [⟨t "r", t "1", [ln "b", ln "a" (some "2")], false⟩, ⟨t "a", t "1", [], false⟩,
+              ⟨t "a", t "2", [ln "b"], false⟩, ⟨t "b", t "1", [ln "a" (some "1")], false⟩]
+    current := [(t "r", t "1"), (t "a", t "1"), (t "b", t "1")] }
+
+/-- corpus/C13/d31_root_name.json: the root `a 1 → b`, `b → a 2`, `a 2 → c`: the name of the root comes back in
+another version, the pinned graph holds `a 1` and `a 2`, and the depth of the name `a` is the root's. -/
+def d31root : Db :=
+  { decls := [⟨t "a", t "1", [ln "b"], false⟩, ⟨t "b", t "1", [ln "a" (some "2")], false⟩,
+              ⟨t "a", t "2", [ln "c"], false⟩, ⟨t "c", t "1", [], false⟩]
+    current := [(t "a", t "1"), (t "b", t "1"), (t "c", t "1")] }
+
+/-- two versions of `b` above a chain: `r → b 2, b`; both `b`s need `c`, `c` needs `e`.  `SingleVersion` fails,
+`PinnedSingle` holds, and `C13_topological_pinned_order` orders `b 2` before `c` too. -/
+def twoB : Db :=
+  { decls := [⟨t "r", t "1", [ln "b" (some "2"), ln "b"], false⟩, ⟨t "b", t "1", [ln "c"], false⟩,
+              ⟨t "b", t "2", [ln "c"], false⟩, ⟨t "c", t "1", [ln "e"], false⟩, ⟨t "e", t "1", [], false⟩]
+    current := [(t "r", t "1"), (t "b", t "1"), (t "c", t "1"), (t "e", t "1")] }
+
+def rT : Prod := ⟨t "r", some (t "1"), true⟩
+
+/-- `PinnedSingle` can be read off the listing of the second pass -/
+theorem pinnedSingle_of_listing (db : Db) (hns : NoUnsetup db) (top : Prod) (req : Required) (o : List Entry) (st : St)
+    (h : depsOf db db.fuel req top true 1 St.empty = some (o, st))
+    (hc : ∀ u ∈ top :: o.map (·.prod), ∀ v ∈ top :: o.map (·.prod), u.name = v.name → u = v) :
+    PinnedSingle db req top := by
+  have hmem : ∀ u, (u = top ∨ Listed db req top u) → u ∈ top :: o.map (·.prod) := by
+    intro u hu
+    rcases hu with hu | hu
+    · simp [hu]
+    · exact List.mem_cons_of_mem _ ((depsOf_listed hns h u).mpr hu)
+  intro u v hu hv hn
+  exact hc u (hmem u hu) v (hmem v hv) hn
+
+example : NoUnsetup twoB := by decide
+example : PinnedSingle twoB (pins twoB rT) rT :=
+  pinnedSingle_of_listing twoB (by decide) rT _ _ _ rfl (by decide)
+example : ¬ SingleVersion twoB rT := fun h =>
+  absurd (h ⟨t "b", some (t "1"), true⟩ ⟨t "b", some (t "2"), true⟩
+    (Or.inr ⟨rT, XReach.refl _, ln "b", by decide, by decide⟩)
+    (Or.inr ⟨rT, XReach.refl _, ln "b" (some "2"), by decide, by decide⟩) rfl) (by decide)
+/-- the listing of `twoB`: both versions of `b` at depth 2, `c` at 3, `e` at 4 -/
+example : (match getDependentProducts twoB twoB.fuel rT true true with
+    | .ok l => l.map fun e => (e.prod.name, e.prod.ver, e.depth)
+    | _ => []) = [(t "b", some (t "2"), some 2), (t "b", some (t "1"), some 2), (t "c", some (t "1"), some 3),
+                  (t "e", some (t "1"), some 4)] := by decide
+end D31Examples
+
+/-- **Negation witnesses for the cycle clause without `SingleVersion`** (known finding D31), both directions:
+on `d31hidden` the graph of the plain closure has a cycle (`a 2 ↔ b`; the same `topologicalSort` reports it) and
+`--checkCycles` returns a listing; on `d31invented` the graph of the plain closure is acyclic and `--checkCycles`
+reports a cycle.  Both are what `C13_checkCycles_exact` predicts from the pinned graph. -/
+theorem C13_cycle_two_versions_witness :
+    (NoUnsetup d31hidden ∧
+      (∃ out st, listing d31hidden d31hidden.fuel [] rT = some (out, st) ∧
+        topologicalSort (graphOf st) true = .cycle) ∧
+      ∃ out, getDependentProducts d31hidden d31hidden.fuel rT true true = .ok out) ∧
+    (NoUnsetup d31invented ∧
+      (∃ out st ls, listing d31invented d31invented.fuel [] rT = some (out, st) ∧
+        topologicalSort (graphOf st) true = .ok ls) ∧
+      getDependentProducts d31invented d31invented.fuel rT true true = .cycle) :=
+  ⟨⟨by decide, ⟨_, _, rfl, by decide⟩, _, rfl⟩, ⟨by decide, ⟨_, _, _, rfl, rfl⟩, by decide⟩⟩
+
+/-- **`PinnedSingle` cannot be dropped** (D31, the root's own name): on `d31root` the entries `b 1` and `a 2` are
+listed, `b`'s table (opened in the pinned graph) has a line denoting `a 2`, nothing leads back from `a 2` to `b`
+(`a 2`'s only dependency `c` has none) — and `a 2` is listed *less* deep than `b`, because the name `a` received the
+depth of the root `a 1`. -/
+theorem C13_pinned_single_needed_witness :
+    ∃ (out : List Entry) (eu ev : Entry),
+      NoUnsetup d31root ∧
+      getDependentProducts d31root d31root.fuel ⟨Str.ofString "a", some (Str.ofString "1"), true⟩ true false = .ok out ∧
+      eu ∈ out ∧ ev ∈ out ∧
+      (∃ d ∈ d31root.table eu.prod,
+        target d31root (pins d31root ⟨Str.ofString "a", some (Str.ofString "1"), true⟩) d = ev.prod) ∧
+      (d31root.table ev.prod).map (·.name) = [Str.ofString "c"] ∧
+      d31root.table ⟨Str.ofString "c", some (Str.ofString "1"), true⟩ = [] ∧
+      (∃ du dv, eu.depth = some du ∧ ev.depth = some dv ∧ dv < du) :=
+  ⟨_, ⟨⟨Str.ofString "b", some (Str.ofString "1"), true⟩, false, some 2⟩,
+      ⟨⟨Str.ofString "a", some (Str.ofString "2"), true⟩, false, some 1⟩,
+    by decide, rfl, by decide, by decide, by decide, by decide, by decide, ⟨2, 1, rfl, rfl, by decide⟩⟩
+
 /-! ## the pinned tree: negation witnesses for the two `TypeError`s -/
 
 section PinnedExamples
@@ -298,6 +445,23 @@ def d2 : Db :=
               ⟨s' "a", s' "1", [req' "e" (some "1"), opt' "c"], false⟩]
     current := [(s' "e", s' "2"), (s' "c", s' "1"), (s' "a", s' "1")] }
 end PinnedExamples
+
+/-- corpus/C13/d32_unsetup_in_cycle.json: `a 1 ↔ b 1`, and `b`'s table unsets `a` -/
+def d32 : Db :=
+  { decls := [⟨s' "a", s' "1", [req' "b"], false⟩,
+              ⟨s' "b", s' "1", [req' "a", ⟨true, false, s' "a", none, false, false⟩], false⟩]
+    current := [(s' "a", s' "1"), (s' "b", s' "1")] }
+
+set_option maxRecDepth 8192 in
+/-- **Pinned tree, D32**: `C13_topological_total` / `C13_dependencies_total` were false before the re-entrance
+guard — on this two-product database (an unsetup line inside the cycle `a ↔ b`) the pinned walk exhausts the
+driver's fuel (the code: `RecursionError`; every pass over `b`'s table starts a fresh listing of `a` that reaches
+`b`'s table again), the repaired walk returns `[b]`. -/
+theorem C13_unsetup_cycle_pinned_witness :
+    depsOfPinned d32 d32.fuel [] ⟨Str.ofString "a", some (Str.ofString "1"), true⟩ true 1 St.empty = none ∧
+    depsOfPinned d32 (4 * d32.fuel) [] ⟨Str.ofString "a", some (Str.ofString "1"), true⟩ true 1 St.empty = none ∧
+    ∃ out, getDependentProducts d32 d32.fuel ⟨Str.ofString "a", some (Str.ofString "1"), true⟩ true false = .ok out :=
+  ⟨by decide, by decide, _, rfl⟩
 
 /-- **Pinned tree, D18**: `C13_topological_total` was false before the repair of `Product.__lt__` — on this
 database (no unsetup lines) the layer that `topologicalSort` sorts for the root `a 1` holds the placeholders
